@@ -748,7 +748,8 @@ def recoverFromError : SM α Unit := do
     match s.active[len-1]?, s.active[len-2]? with
     | some l, some p => if len > 1 && l.isMerge then (s.active.setIfInBounds (len-1) p).setIfInBounds (len-2) l else s.active
     | _, _ => s.active
-  set { s with active := active }
+  -- (`modify`, not `set { s with .. }`: the coverage bit 24 marked above must survive)
+  modify fun s' => { s' with active := active }
   let mut w := WindingState.new
   for e in active do
     if e.isMerge then
